@@ -70,6 +70,11 @@ T('C17',
   'Bounded exhaustive model checking of observation loading: 4 wavelength spacings x n=2..4 (..6 thorough, 7 for the array source) x 3/4 columns x 3 width letters x {ArraySpectrum, ObservedSpectrum text file, TaurexSpectrum, taurex_hdf5_to_observation on a file written by HDF5Output}; for every one of the n! row permutations: ascending wavenumbers = 10000/wavelength, value/error/width still paired with their wavelength, width conversion (or mid-point derivation), bin edges in the wavelength domain, bit-identical to the sorted load, create_binner centres/widths, and a fine model binned with it equals the overlap reference element by element.',
   'n<=7 rows, distinct wavelengths; h5py and numpy trusted; binEdges compared in the wavelength domain (the first-order wavenumber width is not required to reproduce them)')
 
+T('C14',
+  'bounded exhaustive enumeration (container x shape x unit x name letters x mode x route, full (T,P) node/cell/outside lattice) plus explicit-state BFS over singleton-cache operation histories on the real classes, against an independent interpolation / gap-fill / dict model with a file-open counter',
+  'Model checking over inputs, configurations and histories: every supported container (pickle, HDF5 with its pressure unit and name encodings, Exo-Transmit text, pickle and HDF5 k-tables, CIA pickle .db and HITRAN .cia with per-temperature wavenumber ranges and block orders) written by the harness from one logical SI table loads - directly, through discover() and through the caches - to the same opacity(T,P) / cia(T,nu), axis orientation and sanitised name; and an explicit-state breadth-first search over cache-operation histories (set path A|B, set_interpolation, set_memory_mode, get, add, clear) up to depth 5 (thorough 8) on the real OpacityCache / KTableCache / CIACache singletons checks against a dict model that a cached entry is served as the same object without file opens, loads touch only the configured path with bounded open counts, and every path-loaded object interpolates in the currently configured mode.',
+  'small tables (2-4 nodes per axis, 3-7 wavenumbers, 1-3 g-points, up to 3 HITRAN blocks); h5py, pickle and astropy trusted; Exo-Transmit and pickle unit conventions as the readers document them; wavenumber sub-grid requests left to C13; memory mode and eager loading are not part of the statement')
+
 
 def main():
     props = [json.loads(l) for l in open(os.path.join(VERIF, 'properties.jsonl'))]
